@@ -1,4 +1,4 @@
-from orchestrate.common import run_check
+from orchestrate.common import run_check, REPO, ROOT
 
 import re
 
@@ -40,18 +40,53 @@ CENSUS_COUNTS = {  # occurrences in the non-test part of the file
 }
 
 
-def _census():
+# the code the product model (section 6: worker x pools, C20_session) was written from.  Per file: patterns with
+# the number of occurrences in the non-test part, and token sequences that must appear in this ORDER.
+CENSUS_MORE = {
+    "scylla/src/cluster/worker.rs": {
+        "counts": {
+            r"self\.node_config\.used_keyspace = ": 1,          # YUse: used_keyspace is set ...
+            r"Self::handle_use_keyspace_request\(": 1,           # ... then the fan-out task is created from a snapshot
+            r"self\.use_keyspace_channel\.recv\(\)": 1,          # the worker's use_keyspace arm
+            r"\.map\(\|node\| node\.use_keyspace\(": 1,           # fan-out to every known node (YDeliver)
+            r"use_keyspace_result\(use_keyspace_results\.into_iter\(\)\)": 1,   # YReturn: aggregation
+            r"self\.apply_metadata_update\(update\)\.await": 1,  # YApply: awaited inside the arm
+            r"\.wait_until_all_pools_are_initialized\(\)": 2,   # Cluster::new and apply_metadata_update
+        },
+        "order": ["self.use_keyspace_channel.recv()", "self.node_config.used_keyspace = ", "self.cluster_state.load_full()",
+                  "Self::handle_use_keyspace_request(", "tokio::spawn(use_keyspace_future)"],
+    },
+    "scylla/src/cluster/node.rs": {
+        "counts": {
+            r"pool\.use_keyspace\(keyspace_name\)\.await\?": 1,  # Node::use_keyspace hands the pool's answer through
+            r"NodeConnectionPool::new\(": 1,
+        },
+        "order": ["NodeConnectionPool::new(", "Some((host_id, connectivity_events_sender)),", "keyspace_name,"],
+    },
+    "scylla/src/cluster/state.rs": {
+        "counts": {r"node_config\.used_keyspace\.clone\(\)": 1},   # new nodes' pools are constructed with used_keyspace
+        "order": ["Arc::new(Node::new(", "node_config.used_keyspace.clone(),"],
+    },
+    "scylla/src/client/session.rs": {
+        "counts": {r"self\.cluster\.use_keyspace\(verified_ks_name\)\.await": 1},
+        "order": ["VerifiedKeyspaceName::new(keyspace_name, case_sensitive)?;", "self.cluster.use_keyspace(verified_ks_name).await"],
+    },
+}
+
+
+def _read_nontest(rel):
     import os
-    from orchestrate import common
-    path = os.path.join(getattr(common, "REPO", "/repo"), CENSUS_FILE)
-    try:
-        src = open(path).read()
-    except OSError as ex:
-        return ["cannot read %s: %s" % (path, ex)]
+    src = open(os.path.join(REPO, rel)).read()
     cut = src.find("#[cfg(test)]\nmod tests")
-    if cut >= 0:
-        src = src[:cut]
+    return src[:cut] if cut >= 0 else src
+
+
+def _census():
     bad = []
+    try:
+        src = _read_nontest(CENSUS_FILE)
+    except OSError as ex:
+        return ["cannot read %s: %s" % (CENSUS_FILE, ex)]
     try:
         run = src[src.index("pub(crate) async fn run("):src.index("fn is_filling(&self)")]
         arms = [(a, re.sub(r"\(.*", "", b.strip())) for a, b in
@@ -63,7 +98,24 @@ def _census():
     for pat, n in CENSUS_COUNTS.items():
         k = len(re.findall(pat, src))
         if k != n:
-            bad.append("%d occurrences of /%s/ (model written for %d)" % (k, pat, n))
+            bad.append("%s: %d occurrences of /%s/ (model written for %d)" % (CENSUS_FILE, k, pat, n))
+    for rel, spec in CENSUS_MORE.items():
+        try:
+            src = _read_nontest(rel)
+        except OSError as ex:
+            bad.append("cannot read %s: %s" % (rel, ex))
+            continue
+        for pat, n in spec["counts"].items():
+            k = len(re.findall(pat, src))
+            if k != n:
+                bad.append("%s: %d occurrences of /%s/ (model written for %d)" % (rel, k, pat, n))
+        pos = 0
+        for tok in spec["order"]:
+            i = src.find(tok, pos)
+            if i < 0:
+                bad.append("%s: token %r not found after the preceding ones (order %r)" % (rel, tok, spec["order"]))
+                break
+            pos = i + len(tok)
     return bad
 
 
@@ -78,19 +130,22 @@ def _post(lines, verdicts):
       reported up to max(3, 2 %), a diff above that;
     * of the started scenarios at least 80 % must contain request frames judged strictly (requests started
       while a keyspace was established by an undisturbed successful call), at least 50 % such frames on
-      connections accepted AFTER that call returned, and overall there must be prepared-statement frames
+      connections the mock registered AFTER that call returned, and overall there must be prepared-statement frames
       BATCH, paged and overtaking frames, node restarts and reshards;
     * the census of PoolRefiller's control-flow skeleton must match the one the model was written from."""
-    out = [("diff", "census " + CENSUS_FILE, "diff census: " + b) for b in _census()]
+    out = [("diff", "census", "diff census: " + b) for b in _census()]
     e = [ln for ln in lines if ln.startswith("E ")]
+    small = len(e) < 100            # a replay or a hand-made run: the statistical floors do not apply
     if not e:
+        if len(lines) >= 1000:      # a full run without any end-to-end scenario did not exercise the e2e tie
+            out.append(("diff", "e2e", "diff e2e floor: the run contains no end-to-end scenario"))
         return out
     sk = [ln for ln in e if _skipped(ln)]
     if len(sk) > max(3, len(e) // 50):
         out.append(("diff", sk[0], "diff e2e tie not exercised: %d of %d scenarios were not run (%s)"
                     % (len(sk), len(e), sk[0].split("|", 1)[1].strip())))
     st = [ln for ln in e if "| none " in ln]
-    if st:
+    if st and not small:
         def frac(key):
             return sum(1 for ln in st if _stat(ln, key) > 0) / len(st)
         for key, floor in (("strict", 0.8), ("late", 0.5)):
@@ -98,7 +153,7 @@ def _post(lines, verdicts):
                 out.append(("diff", st[0][:200], "diff e2e floor: only %.0f%% of %d started scenarios have %s > 0 (floor %.0f%%)"
                             % (100 * frac(key), len(st), key, 100 * floor)))
         for key in ("pre", "bat", "pag", "early", "ok", "rst", "rsh"):
-            if len(st) >= 100 and sum(_stat(ln, key) for ln in st) == 0:
+            if sum(_stat(ln, key) for ln in st) == 0:
                 out.append(("diff", st[0][:200], "diff e2e floor: no scenario has %s > 0" % key))
     return out
 
@@ -132,7 +187,8 @@ SPEC = {
     "coq_targets": ["Props/C20.vo", "Extract/ExC20.vo"],
     "bin": "c20",
     "sizes": {"quick": 30000, "thorough": 2000000},
-    "min_cases": {"quick": 33000, "thorough": 1900000},
+    # 34 233 / 2 004 233 pure cases + the e2e scenarios: a run that lost its e2e part is below the floor
+    "min_cases": {"quick": 34300, "thorough": 2005000},
     # the search stage re-runs the thorough e2e part as well: one round, not three (loopback ports)
     "search_n": 300000,
     "rule": ("pure part: every string of length 0..3 over the 12 characters a Z 7 _ \" ' ; blank - . e-acute newline "
@@ -141,7 +197,7 @@ SPEC = {
              "(VerifiedKeyspaceName::new), V = check of a USE response, A = aggregation of per-connection results; "
              "e2e part: E = one seeded scenario (150 quick / 1200 thorough; DESIGN planned 6000, which exhausted the loopback "
              "ports of the machine) of a real Session against mocknode: 1-3(+2 added) nodes, "
-             "0-3 shards, pool 1-3 connections, 5-16 steps out of use_keyspace (valid / unknown / invalid names; answers normal, "
+             "0-3 shards, pool 1-3 connections, 5-11 (quick) / 5-16 (thorough) generated steps (+ an optional first burst and 5 closing steps) out of use_keyspace (valid / unknown / invalid names; answers normal, "
              "delayed, refused, unanswered, cutting the connection; racing requests and connection kills; two calls at once), "
              "request bursts, kill all connections of a node, close one connection, add a node, sleep; always ending with a "
              "clean use + kill + requests; non-trivial = N/V/A cases and E scenarios with at least one request frame checked "
@@ -164,7 +220,8 @@ SPEC = {
         "valid_name / parse_use are the name grammar and statement shape transcribed from the property text",
     ],
     "assumptions": [
-        "use_keyspace calls that overlap with a different name are outside the guarantee (documented API contract); the acceptor then only requires one of the names in play",
+        "use_keyspace calls that overlap with a different name are outside the guarantee (documented API contract). Acceptor: after an undisturbed successful call the allowed set is that keyspace alone; after a group of overlapping calls that ALL returned Ok it is the set of the group's keyspaces; after a group with a failed call it is everything allowed before the group plus every keyspace named since, until the next call or group that succeeds",
+        "e2e: the USE statements of one connection are answered in arrival order (the runner's handler delays a USE behind a still-delayed SetKeyspace answer of the same connection); a scenario in which the mock nevertheless wrote them in another order is reported as not-run",
         "pool model granularity: one select! arm of PoolRefiller::run, one submission / one answer of a USE, one connection break = one atomic step; per-connection USE frames are answered in submission order (one TCP stream)",
         "strings are modelled as lists of Unicode scalar values (chars().count(); eq_ignore_ascii_case on UTF-8 bytes = comparison of scalar values with A-Z folded)",
     ],
